@@ -1,8 +1,13 @@
 //! Shared parts of the correspondence harness: PRNG, virtual clock, helpers, report writer.
 //! One binary per property lives in `src/bin/`.
 pub mod clock;
+pub mod dcnet;
 pub mod rng;
+pub mod seq;
+pub mod seqgen;
 pub mod util;
+pub mod sim;
+pub mod exec;
 
 /// Standard entry point of a property binary: `<bin> <quick|thorough> <seed> <outdir> [--replay FILE]`.
 pub struct Args {
